@@ -23,6 +23,7 @@ import (
 var detAllow = map[string]bool{
 	"math.Float64bits": true, "math.Float32bits": true, "math.Float64frombits": true, "math.Float32frombits": true,
 	"math.IsNaN": true, "math.IsInf": true, "math.Inf": true, "math.NaN": true,
+	"(*strings.Builder).WriteByte": true, "(*strings.Builder).WriteString": true, "(*strings.Builder).String": true, "(*strings.Builder).Grow": true, "(*strings.Builder).Len": true,
 	"fmt.Sprintf": true, "bytes.Equal": true, "strings.Compare": true, "sort.Slice": true, "sort.Strings": true, "sort.Sort": true,
 }
 
@@ -95,6 +96,19 @@ func (e *Enc) detReasons(fn *ssa.Function, seen map[*ssa.Function]bool, allowMap
 				switch cv := c.Value.(type) {
 				case *ssa.Builtin:
 				case *ssa.Function:
+					// a closure handed to an order-free helper (fnv1a.AddMap) runs once per map entry in random order:
+					// it may work on its own arguments only, never on something it captured (an outer accumulator)
+					if oc := e.db.byFunc[fname(originOf(cv))]; oc != nil && oc.OrderFree {
+						for _, a := range c.Args {
+							if mc, ok := a.(*ssa.MakeClosure); ok {
+								for i, b := range mc.Bindings {
+									if _, isFn := b.Type().Underlying().(*types.Signature); !isFn {
+										add(in.Pos(), "closure passed to order-free %s captures %s", cv.Name(), mc.Fn.(*ssa.Function).FreeVars[i].Name())
+									}
+								}
+							}
+						}
+					}
 					e.detCallee(cv, seen, &out, in.Pos(), add)
 				case *ssa.MakeClosure:
 					e.detCallee(cv.Fn.(*ssa.Function), seen, &out, in.Pos(), add)
